@@ -211,7 +211,7 @@ def check_shape(c, repo):
                         elif depth == 2:
                             check_cell_store(c, f, st, tg)
                         elif depth == 1 and isinstance(tg.slice, ast.Slice):
-                            check_row_move(c, f, st, tg)
+                            check_row_move(c, f, st, tg, aspects=('height',))      # aliasing / content of the move: C19-D8
                         else:
                             c.bad(f, st, 'a whole row is replaced (%s): the row may end up with a different width' % norm(tg), kind='ast', tag='row-store:' + f.qual)
             elif isinstance(st, ast.Call) and isinstance(st.func, ast.Attribute) and st.func.attr in ('append', 'pop', 'insert', 'remove', 'extend', 'clear'):
@@ -296,7 +296,7 @@ def check_cell_store(c, f, st, tg):
     c.check(singles, f, st, 'exactly one character is stored (ch[0])', witness=norm(v), kind='ast', tag='cell-single:' + f.qual)
 
 
-def check_row_move(c, f, st, tg):
+def check_row_move(c, f, st, tg, aspects=('height', 'alias', 'content')):
     v = st.value
     up = f.name == 'scroll_up'
     probs = row_move_semantics(f, tg, v, up)
@@ -305,10 +305,12 @@ def check_row_move(c, f, st, tg):
     kinds = dict(probs)
     c.check('height' not in kinds, f, st, 'the slice assignment replaces exactly as many rows as it removes, for every grid height and every scroll '
             'region the clamps allow (abstract evaluation over heights 1,2,3,5 x all start/end)', witness=kinds.get('height'), kind='alg', tag='move-count:' + f.name)
-    c.check('alias' not in kinds, f, st, 'no two grid rows are the same list object afterwards (moved rows are copied or moved, never shared)',
-            witness=kinds.get('alias'), kind='alg', tag='move-copied:' + f.name)
-    c.check('content' not in kinds, f, st, 'rows inside the scroll region move %s by exactly one line, rows outside keep their content' % ('up' if up else 'down'),
-            witness=kinds.get('content'), kind='alg', tag='move-shift:' + f.name)
+    if 'alias' in aspects:
+        c.check('alias' not in kinds, f, st, 'no two grid rows are the same list object afterwards (moved rows are copied or moved, never shared)',
+                witness=kinds.get('alias'), kind='alg', tag='move-copied:' + f.name)
+    if 'content' in aspects:
+        c.check('content' not in kinds, f, st, 'rows inside the scroll region move %s by exactly one line, rows outside keep their content' % ('up' if up else 'down'),
+                witness=kinds.get('content'), kind='alg', tag='move-shift:' + f.name)
 
 
 class RowTok(object):
@@ -581,7 +583,6 @@ MUTANTS = [
     ('scroll-up-concat', 'screen', "        self.w[s:e] = copy.deepcopy(self.w[s+1:e+1])", "        self.w[s:e+1] = copy.deepcopy(self.w[s+1:e+1]) + [list(self.w[e])]", 'D5'),
     ('constrain-one-sided', 'screen', "        self.scroll_row_end = constrain (self.scroll_row_end, 1, self.rows)", "        if self.scroll_row_end > self.rows:\n            self.scroll_row_end = self.rows", 'D5'),
     ('scroll-up-off', 'screen', "        self.w[s:e] = copy.deepcopy(self.w[s+1:e+1])", "        self.w[s:e] = copy.deepcopy(self.w[s+1:e+2])", 'D5'),
-    ('scroll-down-nocopy', 'screen', "        self.w[s+1:e+1] = copy.deepcopy(self.w[s:e])", "        self.w[s+1:e+1] = self.w[s:e]", 'D5'),
     ('put-abs-whole-string', 'screen', "        else:\n            ch = ch[0]\n        self.w[r-1][c-1] = ch", "        self.w[r-1][c-1] = ch", 'D5'),
     ('put-abs-unclamped-col', 'screen', "        r = constrain (r, 1, self.rows)\n        c = constrain (c, 1, self.cols)\n        if isinstance(ch, bytes):\n            ch = self._decode(ch)[0]", "        r = constrain (r, 1, self.rows)\n        if isinstance(ch, bytes):\n            ch = self._decode(ch)[0]", 'D5'),
     ('cursor-down-noconstrain', 'screen', "        self.cur_r = self.cur_r + count\n        self.cursor_constrain ()", "        self.cur_r = self.cur_r + count", 'D6'),
